@@ -10,7 +10,9 @@ import (
 	"bufio"
 	"bytes"
 	"crypto"
+	"crypto/ecdsa"
 	"crypto/ed25519"
+	"crypto/rsa"
 	b64 "encoding/base64"
 	"encoding/json"
 	"errors"
@@ -444,6 +446,106 @@ func TestVerifC04Tok(t *testing.T) {
 			for _, v := range vHostile(r, b, 24) {
 				v.Name = tag + v.Name
 				emit(v, "Bearer "+v.Tok)
+			}
+		}
+	}
+	// --- a hand-edited authorized_keys file: comments, blank lines, a weak RSA key, a key without user name, a commented-out
+	// key, options, a user name with spaces, the same key twice. Which lines become authorised keys, and who gets in.
+	if len(only) == 0 || true {
+		type ent struct {
+			line    string // text of the line
+			key     *vKey  // nil for blank lines
+			iss     string // issuer a holder of that key would put in his token
+			class   string
+			blank   bool
+			comment string
+		}
+		ak := func(k *vKey, comment string) string {
+			f := strings.Fields(k.sshLine)
+			return strings.TrimSpace(f[0] + " " + f[1] + " " + comment)
+		}
+		a, b, c := keys[0], keys[1], keys[2]
+		weak, nocomment, ghost, opt := vNewKey("rsa1024", "weak@verif"), vNewKey("ed", "nobody@verif"), vNewKey("ed", "ghost@verif"), vNewKey("p256", "opt@verif")
+		ents := []ent{
+			{line: "# authorized keys of the node", blank: true},
+			{line: ak(a, "alice@verif"), key: a, iss: "alice@verif", class: "valid", comment: "alice@verif"},
+			{line: "", blank: true},
+			{line: "   " + ak(b, "bob@verif") + "   # added by ops", key: b, iss: "bob@verif", class: "valid", comment: "bob@verif"},
+			{line: ak(weak, "weak@verif"), key: weak, iss: "weak@verif", class: "key-weak-rsa", comment: "weak@verif"},
+			{line: ak(nocomment, ""), key: nocomment, iss: "nobody@verif", class: "key-no-comment", comment: ""},
+			{line: "#" + ak(ghost, "ghost@verif"), key: ghost, iss: "ghost@verif", class: "key-commented-out", blank: true},
+			{line: "\t" + ak(c, "carol with spaces") + " ", key: c, iss: "carol with spaces", class: "valid", comment: "carol with spaces"},
+			{line: ak(a, "alice-dup@verif"), key: a, iss: "alice-dup@verif", class: "dup-key-second-name", comment: "alice-dup@verif"},
+			{line: `no-port-forwarding,command="/bin/true" ` + ak(opt, "opt@verif"), key: opt, iss: "opt@verif", class: "valid", comment: "opt@verif"},
+		}
+		var lines []string
+		var desc []map[string]interface{}
+		for _, e := range ents {
+			lines = append(lines, e.line)
+			d := map[string]interface{}{"blank": e.blank, "kind": "other", "bits": 0, "comment": e.comment}
+			if e.key != nil {
+				switch pk := e.key.pub.(type) {
+				case *rsa.PublicKey:
+					d["kind"], d["bits"] = "rsa", pk.N.BitLen()
+				case *ecdsa.PublicKey:
+					d["kind"] = "ecdsa"
+				default:
+					d["kind"] = "ed25519"
+				}
+			}
+			desc = append(desc, d)
+		}
+		m2, err := New(nil, aud, []byte(strings.Join(lines, "\n")+"\n"))
+		if err != nil {
+			t.Fatalf("messy authorized_keys: %v", err)
+		}
+		impl2 := m2.(*middlewareImpl)
+		var names []string
+		var vkeys []*vKey
+		for _, k := range impl2.authorizedKeys {
+			names = append(names, k.comment)
+			vkeys = append(vkeys, &vKey{name: k.comment})
+		}
+		if len(only) == 0 {
+			out.emit(map[string]interface{}{"op": "akeys", "lines": desc}, strings.Join(names, "|"))
+		}
+		mw2 := &vMW{impl: impl2, keys: vkeys, aud: aud, e: mw.e}
+		for _, e := range ents {
+			if e.key == nil {
+				continue
+			}
+			k := e.key
+			hdr := map[string]interface{}{"typ": "JWT", "kid": k.kid}
+			for _, issVariant := range []string{e.iss, "alice@verif"} {
+				bb := vBase{hdr: hdr, payload: vJSON(vAPIClaims(issVariant, aud, now)), signer: k, other: a, attacker: attacker}
+				tok := vCompact(bb.sigFor(k), bb.payload)
+				class := e.class
+				if issVariant != e.iss {
+					class = e.class + "+iss-alice"
+					if e.class == "valid" || e.class == "dup-key-second-name" {
+						if e.key == a { // alice's key (also the duplicate line): alice@verif is its (first) user name
+							class = "valid"
+						} else {
+							class = "iss-not-key-owner"
+						}
+					}
+				}
+				name := "akeys-" + strings.ReplaceAll(e.iss, " ", "_") + "-as-" + strings.ReplaceAll(issVariant, " ", "_")
+				if len(only) > 0 && !only["apitoken|"+name] {
+					continue
+				}
+				by := "signer"
+				if strings.HasPrefix(class, "key-") {
+					by = "unauthorised-key"
+				}
+				op, res := mw2.op(vVariant{Name: name, Class: class, HAlg: string(k.alg), By: by}, "Bearer "+tok, now)
+				type long struct {
+					vTokOp
+					Scheme  string `json:"scheme"`
+					NFields int    `json:"nfields"`
+					CredLen int    `json:"credlen"`
+				}
+				out.emit(long{vTokOp: op, Scheme: "Bearer", NFields: 2, CredLen: len(tok)}, res)
 			}
 		}
 	}
